@@ -125,7 +125,9 @@ def run_instance(inst, U, lattice):
         f.compute()
     except RecursionError:
         return {"error": "RecursionError", "n": len(labels)}
-    return project(f, nodes, labels, inst["opts"], U, lattice)
+    rec = project(f, nodes, labels, inst["opts"], U, lattice)
+    rec["fresh"] = 1
+    return rec
 
 
 def run_relayout(rng):
@@ -156,7 +158,9 @@ def run_relayout(rng):
             f.compute()
     except RecursionError:
         return {"error": "RecursionError", "n": len(labels)}
-    return project(f, nodes, labels, None, 4, True)
+    rec = project(f, nodes, labels, None, 4, True)
+    rec["fresh"] = 0
+    return rec
 
 
 def _num(v):
